@@ -247,6 +247,22 @@ Theorem absent_particles_raise : forall roots ops,
 Proof. exact absent_queries_raise_lemma. Qed.
 Print Assumptions absent_particles_raise.
 
+(* read operations are the identity on the state: after an interleaved history of reads and
+   add_children calls the state is the one reached by the add_children calls alone (so all the
+   theorems above hold after every operation), and every answer is the query in the current state *)
+Theorem reads_are_identity_on_state :
+  (forall e q t, state_after e (HAsk q :: t) = state_after e t) /\
+  (forall roots h, state_after (init roots) h = run roots (adds_of h)) /\
+  (forall e h1 q h2, nth (length h1) (run_history e (h1 ++ HAsk q :: h2)) AErr = ask (state_after e h1) q) /\
+  (forall e h, length (run_history e h) = length h) /\
+  (* the in-Coq comparison of answers used by the correspondence check is sound *)
+  (forall xs ys k, first_mismatch xs ys k = None -> xs = ys).
+Proof.
+  destruct reads_identity_lemma as (A & B & C & D).
+  exact (conj A (conj B (conj C (conj D first_mismatch_none)))).
+Qed.
+Print Assumptions reads_are_identity_on_state.
+
 (* without freshness "exactly once" is false of the faithful model (documented limit) *)
 Theorem iter_twice_when_not_fresh_refuted :
   exists roots ops, NoDup roots /\ ~ NoDup (iter (run roots ops)).
